@@ -168,8 +168,8 @@ func format(b []byte) (out []byte, ok bool) {
 	}
 }
 
-// outputBound is the bound proved in Props.fmt_output_bound: |Format x| ≤ 31·|x| + 1 (runes).
-const boundMul, boundAdd = 31, 1
+// outputBound is the bound proved in Props.fmt_output_bound: |Format x| ≤ 31·|x| + 14 (runes).
+const boundMul, boundAdd = 31, 14
 
 func (p *prop) Run(line string) core.Outcome {
 	f := strings.Fields(line)
@@ -242,7 +242,7 @@ func (p *prop) Run(line string) core.Outcome {
 		o.Failures = append(o.Failures, core.Failure{Class: "idempotence:" + cls,
 			What: fmt.Sprintf("Format is not idempotent: %q -> %q -> %q (input features %v)", clip(xs), clip(string(fx)), clip(string(ffx)), feats)})
 	}
-	if s := shapeProblem(fx); s != "" {
+	if s := shapeProblem(fx); s != "" && len(x) > 0 { // the empty input stays empty
 		o.Failures = append(o.Failures, core.Failure{Class: "output-shape", What: s + fmt.Sprintf(": %q -> %q", clip(xs), clip(string(fx)))})
 	}
 	if utf8.RuneCount(fx) > boundMul*utf8.RuneCount(x)+boundAdd {
